@@ -11,7 +11,28 @@ use curve25519_dalek::scalar::Scalar;
 use curve25519_dalek::traits::{IsIdentity, MultiscalarMul};
 use sha2::{Digest, Sha512};
 use std::io::Read;
-use subtle::ConstantTimeEq;
+use subtle::{ConditionallySelectable, ConstantTimeEq};
+
+/// RNG replaying the secret bytes (outside the traced region)
+struct Fixed([u8; 32]);
+impl rand_core::RngCore for Fixed {
+    fn next_u32(&mut self) -> u32 {
+        0
+    }
+    fn next_u64(&mut self) -> u64 {
+        0
+    }
+    fn fill_bytes(&mut self, d: &mut [u8]) {
+        for (i, x) in d.iter_mut().enumerate() {
+            *x = self.0[i % 32];
+        }
+    }
+    fn try_fill_bytes(&mut self, d: &mut [u8]) -> Result<(), rand_core::Error> {
+        self.fill_bytes(d);
+        Ok(())
+    }
+}
+impl rand_core::CryptoRng for Fixed {}
 
 #[no_mangle]
 pub static mut CT_MARKER: u64 = 0;
@@ -45,6 +66,10 @@ pub const OPS: &[&str] = &[
     // remaining group operations (added after the seeded change C10b, a short-circuit in ct_eq)
     "ed_cteq_t", "ed_is_identity", "ed_is_small_order", "ed_sub", "ed_double", "ed_neg", "ed_to_montgomery", "ed_mul_clamped",
     "mul_base_clamped", "rs_cteq", "rs_add", "rs_mul", "rs_msm2", "mt_cteq", "sc_cteq", "sc_eq",
+    // third group: collection forms, conditional selection on a secret choice, decoders of secret (valid)
+    // encodings, batch compression, hashing to a scalar, key expansion, conversions
+    "sc_sum3", "sc_product3", "ed_sum3", "sc_cond_select", "ed_cond_select", "ed_decompress", "rs_decompress",
+    "rs_batch_compress", "sc_from_hash", "ed_expand", "sk_to_scalar_bytes", "mt_to_edwards", "x_reusable_dh",
 ];
 
 fn main() {
@@ -84,6 +109,9 @@ fn main() {
     let sec_point_t = sec_point + curve25519_dalek::constants::EIGHT_TORSION[(s64[32] & 7) as usize];
     let pub_rpoint = RistrettoPoint::mul_base(&Scalar::from(0x1234567u64));
     let sec_u = sec_point.to_montgomery();
+    let sec_enc = sec_point_t.compress();
+    let sec_renc = sec_rpoint.compress();
+    let reusable = x25519_dalek::ReusableSecret::random_from_rng(Fixed(s32));
     let pub_u2 = pub_point.to_montgomery();
     let eph = x25519_dalek::StaticSecret::from(s32);
     let sk = ed25519_dalek::SigningKey::from_bytes(&s32);
@@ -148,6 +176,22 @@ fn main() {
             "mt_cteq" => out = vec![sec_u.ct_eq(&pub_u2).unwrap_u8()],
             "sc_cteq" => out = vec![sec_scalar.ct_eq(&pub_scalar).unwrap_u8()],
             "sc_eq" => out = vec![(sec_scalar == pub_scalar) as u8],
+            "sc_sum3" => out = [sec_scalar, pub_scalar, sec_scalar_nz].iter().sum::<Scalar>().to_bytes().to_vec(),
+            "sc_product3" => out = [sec_scalar, pub_scalar, sec_scalar_nz].iter().product::<Scalar>().to_bytes().to_vec(),
+            "ed_sum3" => out = [sec_point_t, pub_point, sec_point].iter().sum::<EdwardsPoint>().compress().to_bytes().to_vec(),
+            "sc_cond_select" => out = Scalar::conditional_select(&pub_scalar, &sec_scalar, subtle::Choice::from(s64[33] & 1)).to_bytes().to_vec(),
+            "ed_cond_select" => out = EdwardsPoint::conditional_select(&pub_point, &sec_point_t, subtle::Choice::from(s64[33] & 1)).compress().to_bytes().to_vec(),
+            "ed_decompress" => out = sec_enc.decompress().map(|p| p.compress().to_bytes().to_vec()).unwrap_or_default(),
+            "rs_decompress" => out = sec_renc.decompress().map(|p| p.compress().to_bytes().to_vec()).unwrap_or_default(),
+            "rs_batch_compress" => out = RistrettoPoint::double_and_compress_batch(&[sec_rpoint, pub_rpoint, sec_rpoint + pub_rpoint]).iter().flat_map(|c| c.to_bytes().to_vec()).collect(),
+            "sc_from_hash" => out = Scalar::hash_from_bytes::<Sha512>(&s64).to_bytes().to_vec(),
+            "ed_expand" => {
+                let e = ed25519_dalek::hazmat::ExpandedSecretKey::from(&s32);
+                out = e.scalar.to_bytes().to_vec();
+            }
+            "sk_to_scalar_bytes" => out = sk.to_scalar_bytes().to_vec(),
+            "mt_to_edwards" => out = sec_u.to_edwards(s64[33] & 1).map(|p| p.compress().to_bytes().to_vec()).unwrap_or_default(),
+            "x_reusable_dh" => out = reusable.diffie_hellman(&x25519_dalek::PublicKey::from([7u8; 32])).to_bytes().to_vec(),
             // deliberately variable-time control: the tracer must see a difference here
             "control_vartime" => out = EdwardsPoint::vartime_double_scalar_mul_basepoint(&sec_scalar, &pub_point, &pub_scalar).compress().to_bytes().to_vec(),
             _ => {
